@@ -4,6 +4,7 @@ import (
 	"strings"
 	"fmt"
 	"go/token"
+	"go/types"
 
 	"golang.org/x/tools/go/ssa"
 )
@@ -731,6 +732,61 @@ func runC07(r *Run) {
 		r.Floor("R10", "gas-limit accumulations in EthValidateBasicDecorator", nAcc, 1)
 	} else {
 		r.Bad("R10", "anchor/EthValidateBasicDecorator.AnteHandle", "", "not found")
+	}
+	r.Rule("R13", "PATH.selector-slices-are-length-guarded: go-ethereum asks a precompile for RequiredGas(input) before Run and hands both the caller's calldata as it came — a plain transfer or an empty inner call carries none. Wherever a precompile's RequiredGas or Run cuts a constant-length prefix out of the input (input[:4]) a test of the input's length dominates the slice: an unguarded slice panics, the panic is recovered only by baseapp, the transaction fails with gas_used 0 and the sender has paid the full gas limit with no refund")
+	{
+		nS := 0
+		for _, fn := range P.Funcs {
+			if !strings.Contains(fnPkgPath(fn), "/precompiles/") || strings.Contains(fnPkgPath(fn), "/testutil") || isTestSupport(P, fn) || fn.Synthetic != "" {
+				continue
+			}
+			if fn.Name() != "RequiredGas" && fn.Name() != "Run" {
+				continue
+			}
+			idx := 0
+			eachInstr(fn, func(in ssa.Instruction) {
+				sl, ok := in.(*ssa.Slice)
+				if !ok || sl.High == nil {
+					return
+				}
+				if _, isC := sl.High.(*ssa.Const); !isC {
+					return
+				}
+				if _, isSl := sl.X.Type().Underlying().(*types.Slice); !isSl {
+					return
+				}
+				nS++
+				idx++
+				base := stripValue(sl.X)
+				guarded := false
+				for _, b := range fn.Blocks {
+					iff, ok := lastIf(b)
+					if !ok || b == in.Block() || !dominates(b, in.Block()) {
+						continue
+					}
+					backSlice(iff.Cond).Any(func(v ssa.Value) bool {
+						if c, ok := v.(*ssa.Call); ok {
+							if bi, ok := c.Call.Value.(*ssa.Builtin); ok && bi.Name() == "len" {
+								a := stripValue(c.Call.Args[0])
+								if a == base {
+									guarded = true
+								}
+								// two loads of the same field of the same object (contract.Input)
+								sa, fa, oka := fieldOfAddr(addrOfLoad(a))
+								sb, fb, okb := fieldOfAddr(addrOfLoad(base))
+								if oka && okb && sa == sb && fa == fb {
+									guarded = true
+								}
+							}
+						}
+						return guarded
+					})
+				}
+				r.Check(guarded, "R13", fmt.Sprintf("%s#prefix-slice-%d-guarded", fnID(fn), idx), P.Pos(instrPos(in)), "a test of len(input) dominates the slice",
+					"a precompile cuts a fixed-length prefix out of the call's input without testing its length: calldata shorter than a selector (a plain transfer, an empty inner call) panics; the sender pays the whole gas limit for a transaction reported with gas_used 0")
+			})
+		}
+		r.Floor("R13", "constant-length prefix slices in precompile RequiredGas/Run", nS, 4)
 	}
 	r.Rule("R11", "see C03 R5 (imported): the account that is charged the up-front fee and the account that receives the refund are both MsgEthereumTx.From — which arrives empty (EthValidateBasicDecorator refuses a pre-filled one in every mode) and has one writer, the signature decorator, storing the recovered signer unconditionally: otherwise the fee is deducted from an account named by whoever assembled the wrapper while the refund goes to the signer")
 	r.Import("R11/C03.", []string{"R5"}, runC03)
